@@ -7,6 +7,9 @@ arithmetic).  The statement's consequences are checked as relations between exec
 (object == array level, linearity on all pairs, trailing zeros that keep N = the tree edge
 "append a zero sample", Parseval with the reference supplying the bin the one-sided spectrum
 omits) and the inverse helpers / dominant-period measure against exact references.
+The array-level functions take the Signal object: they are run on a fresh object and - all on the same
+object - on objects with a history (default spectrum read before; spectrum generated with non-default
+arguments before), and the object is re-read afterwards.
 
 Pool-case kinds:
   word   one record with all configurations inside
@@ -33,12 +36,13 @@ def build(tier, seed):
     quick = tier == 'quick'
     L = 7 if quick else 9
     LP = 4 if quick else 5
+    LX = 4 if quick else 6      # words up to this length: complete cross (object history x array-level entry point)
     inv_n = list(range(2, 42, 2)) if quick else list(range(2, 66, 2)) + [96, 100, 128, 130, 200, 256]
     longs = [8, 15, 16, 17, 31, 32, 33] if quick else [8, 15, 16, 17, 31, 32, 33, 63, 64, 65, 100, 127, 128, 129, 255,
                                                       256, 257]
     cases = []
     for w in words(SIGMA, 2, L, nonzero=True):
-        cases.append({'k': 'word', 'w': list(w)})
+        cases.append({'k': 'word', 'w': list(w), 'cross': len(w) <= LX})
     for n in longs:
         for pat in ('first', 'last', 'mixed'):
             cases.append({'k': 'long', 'L': n, 'pat': pat})
@@ -51,17 +55,24 @@ def build(tier, seed):
         'rule': 'all non-zero words over {-1,0,2} of length 2..%d (one pool case per word) x dt in %s x {Signal, AccSignal} '
                 'x padding modes {default, p2_plus 1..3, n in {L, L+1, 2L, next odd > L+1}} x entry points {object lazy '
                 'properties, object gen_fa_spectrum / generate_fa_spectrum, calc_fa_spectrum (p2_plus 0..3, n, unpadded), '
-                'generate_fa_spectrum (padded, unpadded)}; + 3 deterministic records for each length in %s; + all ordered '
+                'generate_fa_spectrum (padded, unpadded)}; the array-level entry points run on a fresh object and, all on the '
+                'same object, after each object history {default spectrum read lazily, gen_fa_spectrum(p2_plus=1), '
+                'gen_fa_spectrum(n = next odd > L+1)} (words of length <= %d: every padding mode as history x calc_fa_spectrum in '
+                'every padding mode), followed by a re-read of the object; + 3 deterministic records for each length in %s; + all ordered '
                 'pairs of words of equal length <= %d (linearity); + inverse helpers for every even N in %s on all impulses '
-                'and mixed records; non-trivial = record not identically zero' % (L, list(DTS), longs, LP, inv_n),
+                'and mixed records; non-trivial = record not identically zero' % (L, list(DTS), LX, longs, LP, inv_n),
         'bounds': {'alphabet': SIGMA, 'max_len': L, 'dt': DTS, 'p2_plus': [0, 1, 2, 3], 'n': ['L', 'L+1', '2L', '(L+2)|1'],
-                   'pair_max_len': LP, 'inverse_even_N': inv_n, 'long_lengths': longs, 'tie_tolerance': TIE},
+                   'pair_max_len': LP, 'history_full_cross_max_len': LX,
+                   'object_history_before_array_level_call': ['fresh', 'lazy-read', 'gen_fa_spectrum(p2_plus=1)',
+                                                              'gen_fa_spectrum(n=(L+2)|1)', 'every padding mode (short words)'], 'inverse_even_N': inv_n, 'long_lengths': longs, 'tie_tolerance': TIE},
         'required_classes': ['odd-N', 'even-N', 'pow2-length', 'non-pow2-length', 'p2_plus>0', 'explicit-n', 'n=npts',
                              'n>npts', 'unpadded', 'padded-default', 'Signal', 'AccSignal', 'int-input',
                              'grid-nonempty-odd-N', 'argmax-unique', 'argmax-tie', 'argmax-bin0', 'argmax-positive-bin',
                              'argmax-abs-differs-from-complex-order', 'linearity-pair', 'trailing-zeros-keep-N',
                              'parseval-even-N', 'parseval-odd-N', 'inverse-pow2-N', 'inverse-non-pow2-N',
-                             'inverse-roundtrip', 'inverse-nonzero-mean', 'inverse-nonzero-nyquist', 'object==array'],
+                             'inverse-roundtrip', 'inverse-nonzero-mean', 'inverse-nonzero-nyquist', 'object==array',
+                             'array-level-on-fresh-object', 'array-level-after-default-spectrum',
+                             'array-level-after-non-default-spectrum'],
         'assumptions': ['sample values outside {-1,0,2} (and their linear combinations 2x-3y) are not examined',
                         'record lengths above the bound only through the listed long / inverse families',
                         'dt only on the menu; requested n >= npts (zero padding, never truncation)',
@@ -85,6 +96,36 @@ def modes_for(L):
     for n in (L, L + 1, 2 * L, (L + 2) | 1):
         ms.append(('n=%d' % n, {'n': n}))
     return ms
+
+
+def histories_for(L, full):
+    """What the object handed to an array-level function has done before: nothing; its default spectrum was read through the
+    lazy properties; gen_fa_spectrum with non-default arguments (full: every padding mode of modes_for; otherwise one
+    p2_plus and one explicit n whose N is odd, hence never the default power of two)."""
+    hs = [('fresh', None), ('lazy-read', None)]
+    if full:
+        hs += [('gen_fa_spectrum(%s)' % mname, kw) for mname, kw in modes_for(L)]
+    else:
+        hs += [('gen_fa_spectrum(p2_plus=1)', {'p2_plus': 1}), ('gen_fa_spectrum(n=%d)' % ((L + 2) | 1), {'n': (L + 2) | 1})]
+    return hs
+
+
+def array_entries(L, full, history):
+    """(name, fn(sig), N of the statement) for the array-level functions on an object with a history: the four entry points
+    with their own rule + calc_fa_spectrum(p2_plus=0) (full: calc_fa_spectrum in every padding mode)."""
+    n_default = fr.n_rule(L, 0)
+    ents = [('calc_fa_spectrum-unpadded', lambda s: frequency.calc_fa_spectrum(s), L),
+            ('generate_fa_spectrum-unpadded', lambda s: frequency.generate_fa_spectrum(s, n_pad=False), L),
+            ('generate_fa_spectrum-padded', lambda s: frequency.generate_fa_spectrum(s, n_pad=True), n_default),
+            ('generate_fa_spectrum-default', lambda s: frequency.generate_fa_spectrum(s), n_default)]
+    if history == 'fresh':      # calc_fa_spectrum in every padding mode on a fresh object: the mode loop of check_record
+        return ents
+    for mname, kw in (modes_for(L) if full else [('default', {})]):
+        akw = dict(kw) if kw else {'p2_plus': 0}
+        ents.append(('calc_fa_spectrum-%s' % ('p2_plus=0' if not kw else mname),
+                     (lambda s, akw=akw: frequency.calc_fa_spectrum(s, **akw)),
+                     fr.n_rule(L, akw.get('p2_plus', 0), akw.get('n'))))
+    return ents
 
 
 # ------------------------------------------------------------------------------ helpers
@@ -214,7 +255,7 @@ def check_series(r, sub, got, want, N, scale):
 
 
 # ------------------------------------------------------------------------------ one record
-def check_record(r, w, tag, light=False):
+def check_record(r, w, tag, light=False, full_cross=False):
     """All configurations for one record.  tag identifies the record in violation keys."""
     L = len(w)
     ref = RefCache(w)
@@ -360,25 +401,50 @@ def check_record(r, w, tag, light=False):
                             if fas is not None:
                                 inverse_checks(r, dict(s6, mode=mname), fas, dt, w, N, 'implementation')
 
-            # ---- array-level entry points with their own rules
-            s0 = make(cname, wf, dt)
-            for ename, fn, N in (
-                    ('calc_fa_spectrum-unpadded', lambda: frequency.calc_fa_spectrum(s0), L),
-                    ('generate_fa_spectrum-unpadded', lambda: frequency.generate_fa_spectrum(s0, n_pad=False), L),
-                    ('generate_fa_spectrum-padded', lambda: frequency.generate_fa_spectrum(s0, n_pad=True), n_default),
-                    ('generate_fa_spectrum-default', lambda: frequency.generate_fa_spectrum(s0), n_default)):
-                r.states += 1
-                r.cls('unpadded' if N == L and 'unpadded' in ename else 'padded-default')
-                r.cls('odd-N' if N % 2 else 'even-N')
-                if N % 2 and N >= 5:
-                    r.cls('grid-nonempty-odd-N')
-                rspec, rfreqs, rtop = ref.get(N, dt)
-                sub = dict(base, mode='N=%d' % N, entry=ename)
-                ok, out = r.call('values', sub, fn)
-                if ok:
-                    ok, aspec, afreqs = unpack2(r, 'values', sub, out)
+            # ---- array-level entry points with their own rules, on objects with a history: the array-level functions
+            # take the Signal object, so "dt x DFT of the record zero-padded to N" (N from the CALL's arguments) must hold
+            # whatever spectrum that object was asked to generate / has handed out before; all array-level calls of one
+            # history run on the SAME object, and afterwards the object must still hold the spectrum of its own history
+            # (an array-level query leaves the object it is given unchanged).
+            for hname, hkw in histories_for(L, full_cross):
+                sub_h = dict(base, history=hname)
+
+                def prepare():
+                    s_ = make(cname, wf, dt)
+                    if hname == 'lazy-read':
+                        _ = (s_.fa_spectrum, s_.fa_freqs)
+                    elif hname != 'fresh':
+                        s_.gen_fa_spectrum(**hkw)
+                    return s_
+                ok, sh = r.call('values', dict(sub_h, entry='object-history'), prepare)
+                if not ok:
+                    continue
+                n_hist = fr.n_rule(L, (hkw or {}).get('p2_plus', 0), (hkw or {}).get('n'))
+                r.cls('array-level-on-fresh-object' if hname == 'fresh' else
+                      'array-level-after-default-spectrum' if n_hist == n_default else 'array-level-after-non-default-spectrum')
+                for ename, fn, N in array_entries(L, full_cross, hname):
+                    r.states += 1
+                    if hname != 'fresh':
+                        r.transitions += 1
+                    r.cls('unpadded' if N == L and 'unpadded' in ename else 'padded-default' if 'generate' in ename else
+                          'array-level-mode')
+                    r.cls('odd-N' if N % 2 else 'even-N')
+                    if N % 2 and N >= 5:
+                        r.cls('grid-nonempty-odd-N')
+                    rspec, rfreqs, rtop = ref.get(N, dt)
+                    sub = dict(sub_h, mode='N=%d' % N, entry=ename) if hname != 'fresh' else dict(base, mode='N=%d' % N, entry=ename)
+                    ok, out = r.call('values', sub, fn, sh)
                     if ok:
-                        cmp_spec(r, sub, aspec, afreqs, rspec, rfreqs)
+                        ok, aspec, afreqs = unpack2(r, 'values', sub, out)
+                        if ok:
+                            cmp_spec(r, sub, aspec, afreqs, rspec, rfreqs)
+                if hname != 'fresh':
+                    # the object after the array-level queries: still the spectrum of its own history
+                    sub = dict(sub_h, mode='N=%d' % n_hist, entry='object-after-array-level-calls')
+                    ok, out = r.call('values', sub, lambda: (sh.fa_spectrum, sh.fa_freqs))
+                    if ok:
+                        rspec, rfreqs, rtop = ref.get(n_hist, dt)
+                        cmp_spec(r, sub, out[0], out[1], rspec, rfreqs)
     return r
 
 
@@ -488,7 +554,7 @@ def run_case(case):
     r = Res()
     k = case['k']
     if k == 'word':
-        return check_record(r, case['w'], case['w'])
+        return check_record(r, case['w'], case['w'], full_cross=bool(case.get('cross')))
     if k == 'long':
         w = long_record(case['L'], case['pat'])
         return check_record(r, w, 'long:%s:L=%d' % (case['pat'], case['L']), light=True)
